@@ -65,6 +65,45 @@ theorem checkWindowTimeout_open {s : St} {w : Window} (h : (checkWindowTimeout s
 @[simp] theorem removeTask_window (s : St) (x : Nat) : (removeTask s x).window = s.window := rfl
 @[simp] theorem setTask_window (s : St) (t : Task) : (setTask s t).window = s.window := rfl
 
+/-! ### the session table does not touch what the property speaks about -/
+@[simp] theorem removeSlot_sessions (s : St) (i : Nat) : (removeSlot s i).sessions = s.sessions := rfl
+@[simp] theorem removeSlot_window (s : St) (i : Nat) : (removeSlot s i).window = s.window := rfl
+@[simp] theorem removeSlot_tasks (s : St) (i : Nat) : (removeSlot s i).tasks = s.tasks := rfl
+@[simp] theorem removeSlot_now (s : St) (i : Nat) : (removeSlot s i).now = s.now := rfl
+@[simp] theorem removeSlot_marker (s : St) (i : Nat) : (removeSlot s i).marker = s.marker := rfl
+@[simp] theorem removeSlot_fresh (s : St) (i : Nat) : (removeSlot s i).fresh = s.fresh := rfl
+
+@[simp] theorem evictOne_sessions (s : St) (v : Option VClass) : (evictOne s v).sessions = s.sessions := by
+  unfold evictOne; split <;> rfl
+@[simp] theorem evictOne_window (s : St) (v : Option VClass) : (evictOne s v).window = s.window := by
+  unfold evictOne; split <;> rfl
+@[simp] theorem evictOne_tasks (s : St) (v : Option VClass) : (evictOne s v).tasks = s.tasks := by
+  unfold evictOne; split <;> rfl
+@[simp] theorem evictOne_now (s : St) (v : Option VClass) : (evictOne s v).now = s.now := by
+  unfold evictOne; split <;> rfl
+@[simp] theorem evictOne_marker (s : St) (v : Option VClass) : (evictOne s v).marker = s.marker := by
+  unfold evictOne; split <;> rfl
+
+/-- everything but the table -/
+def SameCore (a b : St) : Prop :=
+  a.sessions = b.sessions ∧ a.window = b.window ∧ a.tasks = b.tasks ∧ a.now = b.now ∧ a.marker = b.marker ∧
+    a.fresh = b.fresh
+
+theorem addSlot_core {s s' : St} {sl : Slot} (h : addSlot s sl = some s') : SameCore s' s := by
+  unfold addSlot at h
+  split at h
+  · injection h with h; subst h; exact ⟨rfl, rfl, rfl, rfl, rfl, rfl⟩
+  · cases h
+
+theorem reserve_core {s s' : St} {x : Nat} {v : Option VClass} (h : reserve s x v = some s') : SameCore s' s := by
+  unfold reserve at h
+  split at h
+  · rename_i s1 h1; injection h with h; subst h; exact addSlot_core h1
+  · split at h
+    · obtain ⟨a, b, c, d, e, f⟩ := addSlot_core h
+      exact ⟨a, b, c, d, e, f⟩
+    · cases h
+
 /-- the failure counter of an open window stays below the revocation threshold -/
 def WinInv (o : Option Window) : Prop := ∀ w, o = some w → w.failures < maxFailures
 
@@ -102,6 +141,54 @@ theorem winInv_record {s : St} : WinInv (recordFailure s).window := by
 
 theorem winInv_fail {s : St} {x : Nat} : WinInv (failTask s x).window := winInv_record
 
+
+/-! ### the responder's first step on a fresh exchange -/
+theorem pbkdfNew_sessions (s : St) (x : Nat) (r : Req) (v : Option VClass) :
+    (pbkdfNew s x r v).1.sessions = s.sessions := by
+  unfold pbkdfNew
+  split
+  · simp
+  · rename_i s1 h1
+    have hc := (reserve_core h1).1
+    simp only
+    repeat' split
+    all_goals simp [hc]
+
+theorem mem_pbkdfNew {s : St} {x : Nat} {r : Req} {v : Option VClass} {t : Task}
+    (h : t ∈ (pbkdfNew s x r v).1.tasks) : t ∈ s.tasks ∨ ∃ ctx, t.stage = .waitPake1 ctx := by
+  unfold pbkdfNew at h
+  split at h
+  · left; simpa using h
+  · rename_i s1 h1
+    have hc := (reserve_core h1).2.2.1
+    simp only at h
+    split at h
+    · left; simpa [hc] using h
+    · split at h
+      · left; simpa [hc] using h
+      · split at h
+        · rcases mem_setTask h with h | h
+          · right; exact ⟨_, by rw [h]⟩
+          · left; simpa [hc] using h
+        · left; simpa [hc] using h
+
+theorem pbkdfNew_winInv {s : St} (x : Nat) (r : Req) (v : Option VClass) (h : WinInv s.window) :
+    WinInv (pbkdfNew s x r v).1.window := by
+  unfold pbkdfNew
+  split
+  · exact winInv_record
+  · rename_i s1 h1
+    have hc := (reserve_core h1).2.1
+    have h1w : WinInv s1.window := by rw [hc]; exact h
+    simp only
+    split
+    · simp only [updateSessionTimeout_window]; exact h1w
+    · split
+      · rename_i hw; intro w hw2; simp only at hw2; rw [hw] at hw2; cases hw2
+      · split
+        · simp only [setTask_window]; apply winInv_check; simp only [updateSessionTimeout_window]; exact h1w
+        · exact winInv_record
+
 /-- the only way a session comes into existence: a Pake3 on a live handshake that holds the
 in-progress marker, carrying exactly the confirmation value that handshake expects, while the
 window whose verifier answered its Pake1 is still present and unexpired -/
@@ -114,10 +201,21 @@ theorem session_implies_proof (s : St) (op : Op) :
         [{ exch := x, conf := exp, windowOpenAtCreation := true, sameWindowAtCreation := true }] := by
   cases op with
   | openWin pw secs => left; simp only [step]; splits
+  | openEnh pw secs sl it d => left; simp only [step]; splits
   | revoke => left; rfl
   | tick ms => left; rfl
   | poll => left; simp [step]
-  | pbkdf x r => left; simp only [step]; repeat' (first | (simp; done) | split)
+  | pbkdf x r v =>
+    left; simp only [step]
+    split
+    · repeat' (first | (simp; done) | split)
+    · split
+      · simp
+      · rename_i s1 h1
+        rw [pbkdfNew_sessions]; exact (addSlot_core h1).1
+  | rxTimeout x => left; simp only [step]; repeat' (first | (simp; done) | split)
+  | fill n p => left; rfl
+  | unfill => left; rfl
   | pake1 x p => left; simp only [step]; repeat' (first | (simp; done) | split)
   | pake3 x c =>
     simp only [step]
@@ -226,7 +324,11 @@ theorem waitPake3_only_by_valid_pake1 (s : St) (op : Op) (t : Task) (exp : Conf)
   | revoke => left; exact ht
   | tick ms => left; exact ht
   | poll => left; simpa [step] using ht
-  | pbkdf x r =>
+  | openEnh pw secs sl it d =>
+    left; simp only [step] at ht
+    repeat' split at ht
+    all_goals exact ht
+  | pbkdf x r v =>
     left
     simp only [step] at ht
     split at ht
@@ -235,13 +337,20 @@ theorem waitPake3_only_by_valid_pake1 (s : St) (op : Op) (t : Task) (exp : Conf)
       · simpa using mem_failTask ht
     · split at ht
       · simpa using ht
-      · split at ht
-        · simpa using ht
-        · split at ht
-          · rcases mem_setTask ht with h | h
-            · rw [h] at hst; cases hst
-            · simpa using h
-          · simpa using ht
+      · rename_i s1 h1
+        rcases mem_pbkdfNew ht with h | ⟨ctx, h⟩
+        · rw [(addSlot_core h1).2.2.1] at h; exact h
+        · rw [h] at hst; cases hst
+  | rxTimeout x =>
+    left
+    simp only [step] at ht
+    split at ht
+    · exact ht
+    · split at ht
+      · simpa using mem_failTask ht
+      · exact ht
+  | fill n p => left; exact ht
+  | unfill => left; exact ht
   | pake1 x p =>
     simp only [step] at ht
     split at ht
@@ -305,17 +414,38 @@ theorem step_winInv (s : St) (op : Op) (h : WinInv s.window) : WinInv (step s op
     · split
       · exact h
       · intro w hw; simp only at hw; injection hw with hw; subst hw; exact h0
+  | openEnh pw secs sl it d =>
+    simp only [step]
+    split
+    · exact h
+    · split
+      · exact h
+      · split
+        · exact h
+        · intro w hw; simp only at hw; injection hw with hw; subst hw; exact h0
   | revoke => exact winInv_none
   | tick ms => exact h
   | poll => exact winInv_check h
-  | pbkdf x r =>
+  | pbkdf x r v =>
+    simp only [step]
+    split
+    · repeat' split
+      all_goals first
+        | exact winInv_fail
+        | (simp only [removeTask_window, updateSessionTimeout_window]; exact h)
+    · split
+      · simp only [evictOne_window]; exact h
+      · rename_i s1 h1
+        apply pbkdfNew_winInv
+        rw [(addSlot_core h1).2.1]; exact h
+  | rxTimeout x =>
     simp only [step]
     repeat' split
     all_goals first
+      | exact h
       | exact winInv_fail
-      | exact winInv_record
-      | (simp only [removeTask_window, setTask_window, updateSessionTimeout_window]; exact h)
-      | (simp only [removeTask_window, setTask_window]; apply winInv_check; simp only [updateSessionTimeout_window]; exact h)
+  | fill n p => exact h
+  | unfill => exact h
   | pake1 x p =>
     simp only [step]
     repeat' split
@@ -431,7 +561,7 @@ theorem threshold_is_twenty : maxFailures = 20 := by decide
 namespace Ex
 /-- ids are drawn from `fresh`: window id 0, transcript 1, responder share 2 -/
 def conf : Conf := { pw := 7, ctx := 1, pA := 5, pB := 2 }
-def honest : List Op := [.openWin 7 180, .pbkdf 1 .good, .pake1 1 (.valid 5), .pake3 1 (.mac conf)]
+def honest : List Op := [.openWin 7 180, .pbkdf 1 .good none, .pake1 1 (.valid 5), .pake3 1 (.mac conf)]
 
 /-- the honest run ends with one session, created in the open window of its own proof -/
 example : (run {} honest).sessions =
@@ -444,13 +574,13 @@ example : ∃ s sess, sess ∈ (step s (.pake3 1 (.mac conf))).1.sessions ∧ se
     by decide, by decide⟩
 
 /-- **the finding's history**: window revoked between Pake1 and Pake3 — no session, the message is dropped -/
-example : (run {} [.openWin 7 180, .pbkdf 1 .good, .pake1 1 (.valid 5), .revoke, .pake3 1 (.mac conf)]).sessions = [] := by
+example : (run {} [.openWin 7 180, .pbkdf 1 .good none, .pake1 1 (.valid 5), .revoke, .pake3 1 (.mac conf)]).sessions = [] := by
   decide
 /-- … window expired between Pake1 and Pake3 (no poll in between) -/
-example : (run {} [.openWin 7 180, .tick 170000, .pbkdf 1 .good, .pake1 1 (.valid 5), .tick 20000,
+example : (run {} [.openWin 7 180, .tick 170000, .pbkdf 1 .good none, .pake1 1 (.valid 5), .tick 20000,
     .pake3 1 (.mac conf)]).sessions = [] := by decide
 /-- … window replaced by another one between Pake1 and Pake3 -/
-example : (run {} [.openWin 7 180, .pbkdf 1 .good, .pake1 1 (.valid 5), .revoke, .openWin 8 180,
+example : (run {} [.openWin 7 180, .pbkdf 1 .good none, .pake1 1 (.valid 5), .revoke, .openWin 8 180,
     .pake3 1 (.mac conf)]).sessions = [] := by decide
 
 /-- `wrong_passcode_never`: its hypothesis is satisfiable (the handshake expects passcode class 7) -/
@@ -458,10 +588,10 @@ example : (step (run {} (honest.take 3)) (.pake3 1 (.mac { conf with pw := 8 }))
 /-- `failed_proof_counted`: hypotheses satisfiable, and the counter moves 0 → 1 -/
 example : ((step (run {} (honest.take 3)) (.pake3 1 (.junk 0))).1.window.map (·.failures)) = some 1 := by decide
 /-- `waitPake3_only_by_valid_pake1`: an invalid share ends the handshake (and is counted) -/
-example : (run {} [.openWin 7 180, .pbkdf 1 .good, .pake1 1 .identity]).tasks = [] := by decide
-example : ((run {} [.openWin 7 180, .pbkdf 1 .good, .pake1 1 .offCurve]).window.map (·.failures)) = some 1 := by decide
+example : (run {} [.openWin 7 180, .pbkdf 1 .good none, .pake1 1 .identity]).tasks = [] := by decide
+example : ((run {} [.openWin 7 180, .pbkdf 1 .good none, .pake1 1 .offCurve]).window.map (·.failures)) = some 1 := by decide
 /-- a second initiator while one is in progress is told `Busy` and is not counted -/
-example : (step (run {} (honest.take 2)) (.pbkdf 2 .good)).2 = .statusBusy := by decide
+example : (step (run {} (honest.take 2)) (.pbkdf 2 .good none)).2 = .statusBusy := by decide
 end Ex
 
 end C02
